@@ -476,10 +476,21 @@ def compute_next_state(state: State, event: dict) -> State:
         start_head = slide(new_state, flow_config, 0)
 
         # If the first element matches the current event, we start a new flow
-        if _is_match(flow_config.elements[start_head], event):
+        # (for a flow that starts with a branching point, the first matching branch)
+        start_element = flow_config.elements[start_head]
+        matching_head = None
+        if start_element["_type"] == "branch":
+            for branch_head in start_element["branch_heads"]:
+                if _is_match(flow_config.elements[start_head + branch_head], event):
+                    matching_head = start_head + branch_head + 1
+                    break
+        elif _is_match(start_element, event):
+            matching_head = start_head + 1
+
+        if matching_head:
             flow_uid = new_uuid()
             flow_state = FlowState(
-                uid=flow_uid, flow_id=flow_config.id, head=start_head + 1
+                uid=flow_uid, flow_id=flow_config.id, head=matching_head
             )
             new_state.flow_states.append(flow_state)
 
